@@ -17,6 +17,8 @@ package main
 
 import (
 	"fmt"
+	"runtime"
+	"strings"
 	"sync"
 	"sync/atomic"
 	"time"
@@ -47,6 +49,8 @@ func init() {
 				{name: "engine", n: b, perChild: b / div, race: true, timeout: 30 * time.Minute, env: []string{"VERIF_HOOK=chaos", "VERIF_HOOK_PROB=5", "VERIF_HOOK_MAXUS=10"}},
 				{name: "engine-plain", n: b, perChild: b / div, timeout: 30 * time.Minute},
 				{name: "sustained", n: b / 6, perChild: b / 6 / 12, timeout: 20 * time.Minute, env: []string{"VERIF_HOOK=chaos", "VERIF_HOOK_PROB=10", "VERIF_HOOK_MAXUS=10"}},
+				{name: "burst-drain", n: b / 6, perChild: b / 6 / 12, timeout: 20 * time.Minute, env: []string{"VERIF_HOOK=chaos", "VERIF_HOOK_PROB=10", "VERIF_HOOK_MAXUS=5"}},
+				{name: "burst-drain-plain", n: b / 6, perChild: b / 6 / 12, timeout: 20 * time.Minute},
 			}
 		},
 		run: func(c *caseCtx) caseResult {
@@ -55,6 +59,9 @@ func init() {
 			}
 			if c.mode == "sustained" {
 				return c01Sustained(c)
+			}
+			if strings.HasPrefix(c.mode, "burst-drain") {
+				return c01BurstDrain(c)
 			}
 			return c01Engine(c)
 		},
@@ -649,6 +656,114 @@ func c01Sustained(c *caseCtx) (res caseResult) {
 	if c.n < 1 || res.Verdict == vViolated {
 		res.Sample = map[string]any{"scenario": res.Desc}
 	}
+	<-e.Poison(pid).Done()
+	return res
+}
+
+// ---- burst-drain: the inbox grows in a burst, is drained completely, and the next burst arrives at that very moment ----
+
+type bdRecv struct {
+	mu   sync.Mutex
+	got  [][2]int
+	nils int
+	n    int64
+}
+
+func (a *bdRecv) Receive(c *actor.Context) {
+	switch m := c.Message().(type) {
+	case actor.Initialized, actor.Started, actor.Stopped:
+	case *tmsg:
+		a.mu.Lock()
+		a.got = append(a.got, [2]int{m.Sender, m.Seq})
+		a.mu.Unlock()
+		atomic.AddInt64(&a.n, 1)
+	default:
+		a.mu.Lock()
+		a.nils++
+		a.mu.Unlock()
+		atomic.AddInt64(&a.n, 1)
+	}
+}
+
+func c01BurstDrain(c *caseCtx) (res caseResult) {
+	r := c.rng
+	wd := watchdog(c.tier)
+	e, err := actor.NewEngine(actor.NewEngineConfig())
+	if err != nil {
+		res.inconclusive("engine: %v", err)
+		return
+	}
+	size := pick(r, 1, 2, 3, 8)
+	S := 2 + r.Intn(4)
+	rounds := 300 + r.Intn(500)
+	burst := 5 + r.Intn(6)
+	rc := &bdRecv{}
+	pid := e.Spawn(func() actor.Receiver { return rc }, "c01", actor.WithID("bd"), actor.WithInboxSize(size))
+	res.Desc = fmt.Sprintf("burst-drain inbox=%d senders=%d rounds=%d burst=%d", size, S, rounds, burst)
+	var sent int64
+	var wg sync.WaitGroup
+	var gaveUp int32
+	for s := 0; s < S; s++ {
+		s := s
+		wg.Add(1)
+		go func() {
+			defer wg.Done()
+			seq := 0
+			for rd := 0; rd < rounds && atomic.LoadInt32(&gaveUp) == 0; rd++ {
+				for k := 0; k < burst; k++ {
+					e.Send(pid, &tmsg{Sender: s, Seq: seq})
+					seq++
+					atomic.AddInt64(&sent, 1)
+				}
+				// resume exactly when the actor has caught up with everything sent so far
+				spins := 0
+				for atomic.LoadInt64(&rc.n) < atomic.LoadInt64(&sent) {
+					runtime.Gosched()
+					spins++
+					if spins > 2000000 {
+						atomic.StoreInt32(&gaveUp, 1)
+						return
+					}
+				}
+			}
+		}()
+	}
+	wg.Wait()
+	total := int(atomic.LoadInt64(&sent))
+	count := func() int { return int(atomic.LoadInt64(&rc.n)) }
+	if count() < total {
+		late, rest, where := stallVerdict(wd, func() bool { return count() >= total })
+		if !late {
+			if !rest {
+				res.inconclusive("%d of %d delivered, the process is not at rest: %s (%s)", count(), total, where, res.Desc)
+				return
+			}
+			before := count()
+			e.Send(pid, &tmsg{Sender: S, Seq: 0})
+			waitFor(wd/3, func() bool { return count() > before })
+			res.violate("%d of %d messages delivered and the process is at rest (%s): the others are lost (after one more message %d deliveries had been made) (%s)", before, total, where, count(), res.Desc)
+			return
+		}
+	}
+	rc.mu.Lock()
+	next := make([]int, S+1)
+	for _, g := range rc.got {
+		if g[0] < 0 || g[0] > S {
+			continue
+		}
+		if g[1] != next[g[0]] {
+			res.violate("sender %d: message %d delivered where %d was due (lost, duplicated or out of order) (%s)", g[0], g[1], next[g[0]], res.Desc)
+			break
+		}
+		next[g[0]]++
+	}
+	if rc.nils > 0 {
+		res.violate("%d deliveries of something that was never sent (%s)", rc.nils, res.Desc)
+	}
+	rc.mu.Unlock()
+	res.count("burst_drain_rounds", int64(rounds*S))
+	res.count("deliveries", int64(total))
+	res.Sig = sigHash("c01bd", size, S, burst)
 	<-e.Poison(pid).Done()
 	return res
 }
